@@ -244,3 +244,7 @@ pub mod with_key {
 pub mod rpc {
   pub use crate::structure::rpc::*;
 }
+
+#[cfg(rustdds_verif)]
+#[path = "/verif/harness/incrate/mod.rs"]
+pub mod verif;
